@@ -107,8 +107,12 @@ impl BaseElement {
         let s_lo = s as u64;
         let z = (s_hi << 32) - s_hi;
         let (res, over) = s_lo.overflowing_add(z);
+        let res = res.wrapping_add(0u32.wrapping_sub(over as u32) as u64);
 
-        BaseElement::from_mont(res.wrapping_add(0u32.wrapping_sub(over as u32) as u64))
+        // at this point the result is only guaranteed to fit into 64 bits; bring it into the
+        // canonical range [0, M) as all other operations (and equality checks) expect
+        let (reduced, borrow) = res.overflowing_sub(M);
+        BaseElement::from_mont(if borrow { res } else { reduced })
     }
 }
 
